@@ -319,7 +319,7 @@ PROPS = {
         "assumptions": COMMON_ASSUME + ["limits are judged with a tolerance: the model only demands acceptance strictly inside the limits and discarding only after a generous bound (two spaced GC triggers)"],
     },
     "C16": {
-        "module": "core", "pkg": "./checks", "level": "exploration",
+        "module": "netown", "pkg": "./checks", "level": "exploration",
         "jobs": [
             {"test": "TestC16Sweep", "quick": 1, "thorough": 1},
             {"test": "TestC16", "quick": 25, "thorough": 4000, "shards_thorough": 8},
@@ -338,7 +338,7 @@ PROPS = {
         "assumptions": COMMON_ASSUME + ["crypto/tls, crypto/x509 and the TLS exporter are trusted", "real time: slowness can only hide a leak (checked after a barrier), never invent one"],
     },
     "C17": {
-        "module": "core", "pkg": "./checks", "level": "exploration",
+        "module": "netown", "pkg": "./checks", "level": "exploration",
         "jobs": [
             {"test": "TestC17Scenarios", "quick": 1, "thorough": 1, "env_thorough": {"VERIF_C17_BIG": "1"}},
             {"test": "TestC17", "quick": 150, "thorough": 6000, "shards_thorough": 6},
